@@ -1,4 +1,5 @@
 import GqlVerif.Props.C05
+import GqlVerif.Proofs.C05Body
 open GqlVerif.C05
 #print axioms module_shape
 #print axioms module_constants
@@ -9,3 +10,11 @@ open GqlVerif.C05
 #print axioms cli_explicit_selects
 #print axioms mapM_spec
 #print axioms cli_none_gives_all
+-- the request body and its link to the generator (Proofs/C05Body.lean)
+#print axioms GqlVerif.C05Body.body_members
+#print axioms GqlVerif.C05Body.body_keys
+#print axioms GqlVerif.C05Body.body_of_generate
+#print axioms GqlVerif.C05Body.items_of_named_operation
+#print axioms GqlVerif.C05Body.named_operation_is_written
+#print axioms GqlVerif.C05Body.request_body_of_generate
+#print axioms GqlVerif.C05Body.clash_witness
